@@ -8,7 +8,57 @@ with that tag through every serializer on both paths: the converter runs iff the
 import common
 
 
+def encode_then_decode(ctx):
+    """what the process has ENCODED must not widen what it accepts when DECODING: an application exception class
+    that was serialised (by any serializer) is still refused when it comes back as a class tag"""
+    common.repo_on_path()
+    import sys
+    import types
+    from Pyro5 import serializers
+    mod = types.ModuleType("verifapp_c04")
+    sys.modules["verifapp_c04"] = mod
+    built = []
+
+    class JobFailed(Exception):
+        def __init__(self, *a):
+            built.append(a)
+            super().__init__(*a)
+    JobFailed.__module__ = "verifapp_c04"
+    JobFailed.__qualname__ = "JobFailed"
+    mod.JobFailed = JobFailed
+    try:
+        for enc_name, enc in serializers.serializers.items():
+            try:
+                enc.dumps(JobFailed("sent out"))
+                enc.dumpsCall("o", "m", (JobFailed("arg"),), {})
+            except Exception:
+                pass
+            del built[:]
+            for dec_name, dec in serializers.serializers.items():
+                for path in ("loads", "loadsCall"):
+                    d = {"__class__": "verifapp_c04.JobFailed", "__exception__": True, "args": ["hostile"], "attributes": {"x": 1}}
+                    try:
+                        if path == "loads":
+                            out = dec.loads(dec.dumps(d))
+                        else:
+                            out = dec.loadsCall(dec.dumpsCall("o", "m", (d,), {}))[2][0]
+                        accepted = not isinstance(out, dict)
+                    except Exception:
+                        accepted = False
+                    ctx.evaluations += 1
+                    if accepted or built:
+                        ctx.fail("encode-widens-decode", "after %s serialised an application exception, %s.%s builds the class from "
+                                 "a hostile class dict (constructor calls: %r)" % (enc_name, dec_name, path, built),
+                                 {"encoder": enc_name, "decoder": dec_name, "path": path})
+                        return
+    finally:
+        sys.modules.pop("verifapp_c04", None)
+        for k in [k for k in serializers.all_exceptions if "verifapp_c04" in str(k)]:
+            serializers.all_exceptions.pop(k, None)
+
+
 def run(ctx, n):
+    encode_then_decode(ctx)
     common.repo_on_path()
     from Pyro5 import serializers, api, errors
     rng = ctx.sub_rng("registry")
